@@ -45,19 +45,29 @@ def _flag_update(x, fs):
     -> (shift, mark) such that new == ((old >> shift) | mark) & 0xFF for all old, or an error string"""
     import termeval
     fns = []
+    first = []          # the load the first store reads: the byte's content before the token (same place term, same epoch)
+
+    def key_of_load(q):
+        q = uncast(q)
+        return (q[1], q[2] if len(q) > 2 else None)
     for e in fs:
         def leaf(q):
             if _is_flag_load(q):
-                return "cur"
+                if not first:
+                    first.append(key_of_load(q))
+                # a later store whose operand is still that first load was forwarded by the evaluator: it is already a function
+                # of the initial content, not of the value left by the previous store
+                return "init" if key_of_load(q) == first[0] else "cur"
             raise termeval.Unsupported(tstr(q))
         try:
-            fns.append(termeval.make_fn(termeval.compile_term(e[2], leaf), ["cur"]))
+            fns.append(termeval.make_fn(termeval.compile_term(e[2], leaf), ["init", "cur"]))
         except Exception as ex:
             return "the flag byte is updated by %s, which is not a function of the flag byte and constants" % tstr(e[2])[:80]
     def run(v):
+        cur = v
         for g in fns:
-            v = g(v) & 0xFF
-        return v
+            cur = g(v, cur) & 0xFF
+        return cur
     mark = run(0)
     for sh in range(0, 8):
         if all(run(v) == ((v >> sh) | mark) & 0xFF for v in range(256)):
@@ -219,7 +229,7 @@ def rule_lz_buffer(ctx, cfg, r):
 
     def behaviour(g, n):
         """the row of g taken for num_flags_left == n: (new num_flags_left, plant_flag called, flag stores, code_position delta)"""
-        for x in paths.Evaluator(c, effects=E).run(g):
+        for x in paths.Evaluator(c, effects=E, inline=["LZOxide::plant_flag"]).run(g):
             if x.outcome[0] != "return":
                 continue
             try:
@@ -239,7 +249,15 @@ def rule_lz_buffer(ctx, cfg, r):
             cp = 1000
             if cps:
                 cp = termeval.make_fn(termeval.compile_term(cps[-1][2], leaf_n), ["n", "flag", "cp"])(n, 0xA5, 1000)
-            return nv, bool(calls_named(x, "LZOxide::plant_flag")), fl, cp - 1000
+            # planting a new flag byte: flag_position takes the old code_position and the code position moves past it
+            fps = [e for e in x.stores() if e[1][0] == "fld" and e[1][2] == "flag_position"]
+            planted = False
+            if fps:
+                try:
+                    planted = termeval.make_fn(termeval.compile_term(fps[-1][2], leaf_n), ["n", "flag", "cp"])(n, 0xA5, 1000) == 1000 and cp == 1001
+                except Exception:
+                    planted = False
+            return nv, planted, fl, cp - 1000
         return None
     g = c.fn("deflate::core::LZOxide::consume_flag")
     ctx.touched(g)
@@ -431,3 +449,56 @@ def rule_lz_buffer(ctx, cfg, r):
     else:
         r.fail("<lz buffer>", "lz/agreement", "the LZ token buffer is written and read under different conventions: %s (expected: sentinel = 1 << slots, "
                "match bit = 1 << (slots-1), shifts 1/1, test mask 1, high-byte shift 8/8, offsets 3/1)" % facts_)
+
+
+def rule_token_buffer_capacity(ctx, cfg, r):
+    """The LZ token buffer is flushed before it can overflow: in every iteration of the compress loops that records tokens, the bytes that
+    may be appended to `lz.codes` (one per write_code call, one per consume_flag call — it may plant a new flag byte) number at most M,
+    where the iteration's fullness test is `code_position > LZ_CODE_BUF_SIZE - M`; an iteration that records tokens without such a test
+    is reported.  (write_code indexes with a wrapping u16 cast, so an overflow does not panic: it silently overwrites the start of the
+    block's token buffer.)"""
+    c = ctx.crate(cfg)
+    E = ctx.effects(cfg)
+    SIZE = c.const_int("LZ_CODE_BUF_SIZE")
+    n = 0
+    for name in ("deflate::core::compress_normal", "deflate::core::compress_fast"):
+        f = c.fn(name)
+        ctx.touched(f)
+        heads = [b for b in range(len(f.blocks)) if any(f.dominates(b, p) for p in f.preds(b))]
+        for h in heads:
+            ev = paths.Evaluator(c, effects=E, inline=["deflate::core::record_literal", "deflate::core::record_match"], max_paths=20000, max_blocks=140,
+                                 stop_blocks=[q for q in heads if q != h])
+            worst = {}
+            for x in ev.run(f, start_bb=h):
+                if x.outcome[0] == "diverge":
+                    continue
+                w = len([e for e in x.effects if e[0] == "call" and e[1].endswith("LZOxide::write_code")])
+                cf = len([e for e in x.effects if e[0] == "call" and e[1].endswith("LZOxide::consume_flag")])
+                if w + cf == 0:
+                    continue
+                ks = set()
+                for a, op, b in rels(x):
+                    for p_, q_ in ((a, b), (b, a)):
+                        if p_[0] == "load" and paths.place_is_field(p_[1], "code_position") and is_const(q_) and op in ("Le", "Lt"):
+                            # cp <= K (room left) / K < cp (tight)  — or the strict / swapped spellings
+                            k = const_val(q_)
+                            if p_ is a:
+                                ks.add(k if op == "Le" else k - 1)
+                            else:
+                                ks.add(k if op == "Lt" else k - 1)
+                key = (w + cf, max(ks) if ks else None)
+                if key not in worst:
+                    worst[key] = x
+            for (tot, k), x in sorted(worst.items(), key=lambda kv: str(kv[0])):
+                n += 1
+                if k is None:
+                    r.fail(f.name, "lz/capacity", "an iteration of %s records tokens (%d buffer bytes at most) without testing code_position against the "
+                           "buffer size" % (f.name.split("::")[-1], tot), where=first_span(x), path=row_path(x, 8))
+                elif tot > SIZE - k:
+                    r.fail(f.name, "lz/capacity", "an iteration of %s can append %d bytes to the token buffer but the block is flushed only when "
+                           "code_position > LZ_CODE_BUF_SIZE - %d: the last bytes wrap around to the start of the buffer (write_code indexes with a "
+                           "wrapping u16) and corrupt the block" % (f.name.split("::")[-1], tot, SIZE - k), where=first_span(x), path=row_path(x, 8))
+                else:
+                    r.ok(f.name, "lz/capacity", "at most %d bytes per iteration, flushed when fewer than %d are free" % (tot, SIZE - k))
+    if n < 4:
+        r.fail("<deflate>", "lz/capacity-rows", "expected at least 4 token-recording iteration shapes in compress_normal / compress_fast, found %d" % n)
